@@ -39,7 +39,10 @@ pub fn run(ctx: &Ctx, rep: &mut Report) {
                     let extra = r.usize(0, 40);
                     payload.extend(armor_chars(&mut r, extra));
                 }
-                let mut b = Build::simple(n, k, Some(2), b"A", &payload, 0);
+                if variant % 16 == 7 {
+                    payload.truncate(1); // a lone first character
+                }
+                let mut b = Build::simple(n, k, Some(2), b"A", &payload, (variant % 6) as u8);
                 if variant % 4 == 2 {
                     b.tag = Some(b"c:1700000000".to_vec());
                 }
